@@ -13,6 +13,7 @@ import (
 func C16() {
 	src := Input()
 	sym.Observe("src", src)
+	sym.Prune(true) // error paths end when the lexer starts to build its error token
 	l := lexer.New(src)
 	prevEnd := 0 // end offset of the previous token
 	lines := 1   // 1 + number of '\n' in src[:scanned]
